@@ -9,6 +9,7 @@ import hashlib
 import os
 
 from .normalize import normalize_module
+from .inline import inline_module
 
 REPO = os.environ.get("VERIF_REPO", "/repo")
 PKG = "artap"
@@ -50,7 +51,7 @@ class Module:
         self.name = name
         self.path = path
         self.source = source
-        self.tree = normalize_module(ast.parse(source, filename=path), comp=comp)
+        self.tree = normalize_module(inline_module(normalize_module(inline_module(ast.parse(source, filename=path), name), comp=comp), name), comp=comp)
         self.digest = hashlib.sha256(source.encode()).hexdigest()[:16]
         self.classes = {}
         self.functions = {}
